@@ -179,7 +179,7 @@ var famFreq = NewFamily("C16.normalize", func(fc freqCase) (*Fail, bool) {
 
 func init() {
 	register("C16", "exploration", func(c *Ctx) {
-		c.Rule("exhaustive grids: (a) every histogram over 2..4 present symbols with counts 1..Cmax at two symbol placements; (b) k rare symbols of count r + m dominant symbols of count r*rho for every k in 0..255, m in 1..16, both scan orders; (c) 'all equal' and geometric families for every alphabet size 1..256 x 12 totals + total == scale, each also passed as slices of exactly N entries (the form the Huffman encoder uses); each x every scale 2^8..2^16. A case is non-trivial when >=2 symbols are present, a table exists (present <= scale) and the shortcut total==scale is not taken; distinct = distinct generator parameters")
+		c.Rule("exhaustive grids: (a) every histogram over 2..4 present symbols with counts 1..Cmax at two symbol placements; (b) k rare symbols of count r + m dominant symbols of count r*rho for every k in 0..255, m in 1..16, both scan orders; (c) 'all equal' and geometric families for every alphabet size 1..256 x 14 totals (up to 2^31-1) + total == scale, each also passed as slices of exactly N entries (the form the Huffman encoder uses); each x every scale 2^8..2^16. A case is non-trivial when >=2 symbols are present, a table exists (present <= scale) and the shortcut total==scale is not taken; distinct = distinct generator parameters")
 		cmax := pick(c, 10, 14)
 		famFreq.Each(c, 0, func(emit func(freqCase)) {
 			placements := [][]int{{0, 1, 2, 255}, {7, 100, 200, 254}}
@@ -219,7 +219,7 @@ func init() {
 					}
 				}
 				for n := 1; n <= 256; n++ {
-					for _, tot := range []int{n, n + 1, 2*n + 1, 3 * n, 1000, 4096, 16384, 65536, 100000, 1 << 20, 1<<24 + 3, 1 << 27} {
+					for _, tot := range []int{n, n + 1, 2*n + 1, 3 * n, 1000, 4096, 16384, 65536, 100000, 1 << 20, 1<<24 + 3, 1 << 27, 1 << 30, 1<<31 - 1} {
 						if tot < n {
 							continue
 						}
